@@ -307,3 +307,95 @@ func execC06(c *Ctx) {
 	c.Res.FP = fmt.Sprintf("%016x", hash64(hashOps(p.Ops), uint64(np), uint64(p.Cfg.SuspicionMult), uint64(p.Cfg.SuspicionMaxMult), uint64(p.Cfg.ProbeIntervalMs)))
 	c.Res.Sample = map[string]any{"m": np, "k": cur.k, "min_ms": cur.min / time.Millisecond, "max_ms": cur.max / time.Millisecond, "confirmations": cur.c, "death_after_ms": (deathAt - cur.start) / time.Millisecond}
 }
+
+// ---------------------------------------------------------------- C06I: the suspicion timeout racing a refutation at the yield sites
+
+func init() {
+	register(&Scenario{Name: "C06I", Gen: genC06I, Exec: execC06I})
+}
+
+func genC06I(c *Ctx) *Plan {
+	r := c.R
+	p := &Plan{Cfg: benchCfg(r), P: map[string]int64{}, YieldOff: []string{"*"}}
+	p.Cfg.SuspicionMult = r.rangeI(1, 4)
+	p.Cfg.SuspicionMaxMult = r.rangeI(1, 3)
+	p.Cfg.ProbeIntervalMs = r.pick(100, 500)
+	p.Cfg.GossipToDeadMs = 3600_000
+	p.P["m"] = int64(r.pick(1, 2, 3, 5))
+	p.P["offset_ns"] = int64(r.pick(-1000, -1, 0, 0, 0, 1, 1000)) // refutation relative to the deadline
+	p.P["kind"] = int64(r.pick(0, 0, 1))                          // 0 alive inc+1 ; 1 alive inc+1 then suspect inc+1 (re-suspicion)
+	return p
+}
+
+func execC06I(c *Ctx) {
+	p := c.Plan
+	b := newBench(c, p.Cfg, false, nil)
+	defer b.finish()
+	m := b.n.m
+	sim := b.sim
+	np := int(p.param("m", 2))
+	pxAddr := net.IPv4(10, 0, 1, 1).To4()
+	m.aliveNode(&alive{Incarnation: 3, Node: "px", Addr: pxAddr, Port: 7946, Vsn: c01Vsn(0)}, nil, false)
+	for i := 1; i < np; i++ {
+		m.aliveNode(&alive{Incarnation: 1, Node: fmt.Sprintf("p%d", i), Addr: net.IPv4(10, 0, 1, byte(1+i)).To4(), Port: 7946, Vsn: c01Vsn(0)}, nil, false)
+	}
+	sim.Run(10 * time.Millisecond)
+	ts := sim.Now()
+	m.suspectNode(&suspect{Incarnation: 3, Node: "px", From: "obs"})
+	ref := newRefTimer(ts, "obs", p.Cfg.SuspicionMult, p.Cfg.SuspicionMaxMult, np+1, m.config.ProbeInterval)
+	// from here on the scheduler owns the interleaving of the timer callback and the refutation
+	sim.yieldAll = false
+	sim.yieldSites = map[string]bool{"susptimeout": true, "susptimeout2": true, "alive": true, "dead": true, "suspect": true}
+	// the library floors the timeout to whole milliseconds: aim at the actual timer instant
+	st := m.nodeTimers["px"]
+	if st == nil {
+		c.Res.HarnessErr = "no timer"
+		c.Res.OK = false
+		return
+	}
+	_ = ref
+	fire := ts + st.min
+	if st.k >= 1 {
+		fire = ts + st.max
+	}
+	at := fire + time.Duration(p.param("offset_ns", 0))
+	delivered := false
+	sim.At(at, 1<<57, 1, "refute", func() {
+		go func() {
+			m.aliveNode(&alive{Incarnation: 4, Node: "px", Addr: pxAddr, Port: 7946, Vsn: c01Vsn(0)}, nil, false)
+			if p.param("kind", 0) == 1 {
+				m.suspectNode(&suspect{Incarnation: 4, Node: "px", From: "p1"})
+			}
+			delivered = true
+		}()
+	})
+	sim.RunUntil(at+5*time.Millisecond, nil)
+	sim.Settle()
+	sim.yieldSites = map[string]bool{}
+	if !delivered {
+		c.Res.HarnessErr = "refutation not delivered"
+		c.Res.OK = false
+		return
+	}
+	v := b.n.view("px")
+	// the refutation (alive@4) was delivered: whatever the order, px must now be listed at
+	// incarnation 4 (alive, or suspect again when the script re-suspected it); a stale timer
+	// must never have declared it dead at the refuting incarnation
+	wantSuspect := p.param("kind", 0) == 1
+	ok := v.Inc == 4 && ((v.State == StateAlive && !wantSuspect) || (v.State == StateSuspect && wantSuspect))
+	if !ok {
+		c.Violate("refuted-peer-killed-by-stale-timeout", "", "obs", "suspicion of px@3 due at %v, refutation alive@4 delivered at offset %dns (re-suspected=%v): record is %s, expected listed at incarnation 4", fire-ts, p.param("offset_ns", 0), wantSuspect, v)
+		return
+	}
+	if !b.n.lists("px") {
+		c.Violate("refuted-peer-killed-by-stale-timeout", "", "obs", "px not in Members() after the refutation: %s", v)
+	}
+	c.Res.Nontrivial = true
+	for k, n := range sim.siteHits {
+		if k == "susptimeout2" && n > 0 {
+			c.Reach("timeout_callback_parked_between_validation_and_action")
+		}
+	}
+	c.Res.FP = fmt.Sprintf("%016x", hash64(uint64(np), uint64(p.param("offset_ns", 0)+5000), uint64(p.param("kind", 0)), uint64(p.Cfg.SuspicionMult), uint64(p.Cfg.SuspicionMaxMult), uint64(p.Cfg.ProbeIntervalMs), sim.fpHash))
+	c.Res.Sample = map[string]any{"offset_ns": p.param("offset_ns", 0), "m": np, "record": v.String()}
+}
